@@ -1,7 +1,7 @@
 """C03 — pretty-printed text says exactly what the dictionary says."""
 from props import common
 
-MODULES = ["contracts.quoter", "contracts.pprint_c"]
+from props.plans import ALL_MODULES as MODULES
 
 
 def pred(c):
